@@ -5,12 +5,19 @@ A case is plain data:
     {"kind": "dl" | "gather" | "race",
      "foc": bool, "foe": bool, "ce": bool,        # dl flags (gather uses ce only)
      "inputs": [[prefired, ok, canceller(, [inner_ok, inner_canceller])], ...],   # canceller in none|noop|ok|fail
-     "sched":  [i, ..., -1, ..., 100+i]}           # fire input i / -1 = cancel the aggregate / fire input i's inner Deferred
+     "sched":  [i, ..., -1, ..., 100+i],           # fire input i / -1 = cancel the aggregate / fire input i's inner Deferred
+     "reent": bool}                                # the aggregate's own callback adds one more callback to every input
 
 Input i fires with the value ("v", i) or the exception Boom(("x", i)); its
 canceller (when it has one) does nothing, fires ("cv", i) or fails with
 Boom(("cx", i)).  A schedule entry for an input that has already completed
 (because something cancelled it) is skipped.
+
+"Callbacks added later" to an input are observed at three moments: right after
+the aggregate was built, re-entrantly from the aggregate's own callback (with
+"reent": while the input whose result fired the aggregate is still running its
+callback chain), and after the schedule has ended.  All of them pass the
+result through, so each must see the same thing.
 
 An input with a fourth element is *chained*: before the aggregate is built it
 gets a callback that returns a fresh unfired inner Deferred, so once the input
@@ -31,7 +38,7 @@ META = dict(
     property="C04",
     level="exploration",
     technique="complete small-scope enumeration (kinds x flags x pre-fired subsets x outcomes x cancellers x firing permutations x aggregate-cancel position) + Hypothesis schedules for up to 12 inputs, lock-step against a model of the documented aggregate results",
-    level_text="Every case with 1..3 inputs (quick) / 1..4 inputs (thorough); at the largest size of each tier the canceller alphabet is none/fires-success/fires-failure, below it also the do-nothing canceller -- and every case with 1..2 (quick) / 1..3 (thorough) inputs of which at least one has fired but still waits on an inner Deferred returned by an earlier callback -- is executed against the real DeferredList / gatherResults / race and a reference model, comparing after every step: whether the aggregate has fired, its result, what a callback added later to each input sees, how often each input's canceller ran and how often the race winner was cancelled. Lists of up to 12 inputs are sampled. Exhaustive only for the stated sizes.",
+    level_text="Every case with 1..3 inputs (quick) / 1..4 inputs (thorough); at the largest size the canceller alphabet is fires-success/fires-failure (quick, n = 3) or none/fires-success/fires-failure (thorough, n = 4), below it all four -- and every case with 1..2 (quick) / 1..3 (thorough) inputs of which at least one has fired but still waits on an inner Deferred returned by an earlier callback -- is executed against the real DeferredList / gatherResults / race and a reference model, comparing after every step: whether the aggregate has fired, its result, what callbacks added later to each input see (added right after construction, re-entrantly from the aggregate's own callback, and at the end), how often each input's canceller ran and how often the race winner was cancelled. Lists of up to 12 inputs are sampled. Exhaustive only for the stated sizes.",
     level_note="Reference model written from the docstrings of DeferredList, gatherResults, race and Deferred.cancel; trusted. Inputs are Deferreds (a subclass that counts cancel() calls), either bare or with one earlier callback that returns an unfired inner Deferred (fired-but-still-waiting inputs). For race, inputs on which cancel() does not produce a result at once (canceller fires a success whose callback then waits on an inner Deferred) are outside the scope: the statement does not say what race does with a result arriving after its own cancellation.",
     design_ref="§5 C04",
     rule="case = (kind, flags, per input [pre-fired, outcome, canceller, optional inner Deferred plan], schedule of fire / fire-inner / cancel steps). non-trivial = at least 3 inputs, both successes and failures among the planned outcomes, and the inputs do not complete in index order; distinct by the whole case.",
@@ -352,18 +359,34 @@ def run_case(ctx, case):
     for i in prelearn:
         m.learn(i)
 
+    reent = bool(case.get("reent"))
+    groups = {"after-construction": seen, "re-entrant": [[] for _ in range(n)],
+              "at-end": [[] for _ in range(n)]}
+    added = {g: False for g in groups}
+    now = ["construction"]
+    agg_fired_in = []
+
+    def later(g, i):
+        def cb(r):
+            groups[g][i].append(r)
+            return r                      # pass through: every later callback sees the same
+        return cb
+
+    def add_group(g):
+        added[g] = True
+        for i in range(n):
+            ds[i].addBoth(later(g, i))
+
     def agg_cb(r):
         agg_seen.append(r)
+        agg_fired_in.append(now[0])
+        if reent:
+            # callbacks added to the inputs from inside the aggregate's callback:
+            # the input that just completed is still running its chain
+            add_group("re-entrant")
         return None
     agg.addBoth(agg_cb)
-
-    def later(i):
-        def cb(r):
-            seen[i].append(r)
-            return None
-        return cb
-    for i in range(n):
-        ds[i].addBoth(later(i))
+    add_group("after-construction")
 
     cancel_while_unfired = False
     steps_done = []
@@ -417,35 +440,38 @@ def run_case(ctx, case):
                     ctx.violation(f"{kind}-canceller-count", case,
                                   f"after {step}: inner canceller of input {i} ran {icanc_real[i]} times, model {m.inner_canc_calls[i]}")
             if exp is None:
-                if seen[i]:
+                if any(groups[g][i] for g in groups):
                     ctx.violation(f"{kind}-input-completion", case, f"after {step}: input {i} ran callbacks, model says it has not completed")
                 continue
             if not seen[i] and m.by_cancel[i]:
                 ctx.violation(f"{kind}-cancel-not-forwarded", case,
                               f"after {step}: input {i} should have been completed by a cancellation (model outcome {m.outcome[i]!r}); it has not completed")
-            if len(seen[i]) != 1:
-                ctx.violation(f"{kind}-input-callback-count", case, f"after {step}: input {i} later callback ran {len(seen[i])} times")
-            r = seen[i][0]
-            if isinstance(r, Failure):
-                got = ("fail", _norm_failure(r))
-            else:
-                got = ("ok", r)
-            if exp[0] == "race-any":
-                # race: the statement does not say what later callbacks see;
-                # only an error that is not the input's own is a defect
-                if got not in (("ok", None), ("ok", exp[1]), ("fail", exp[1])):
-                    ctx.violation("race-input-result-foreign", case,
-                                  f"after {step}: later callback on input {i} saw {got!r}; input outcome {exp[1]!r}")
-            elif got != exp:
-                if exp == ("ok", None) or got == ("ok", None):
-                    sig = f"{kind}-consumeErrors"
+            for g in ("after-construction", "re-entrant", "at-end"):
+                if not added[g]:
+                    continue
+                got_list = groups[g][i]
+                if len(got_list) != 1:
+                    ctx.violation(f"{kind}-input-callback-count", case,
+                                  f"after {step}: the callback added {g} to input {i} ran {len(got_list)} times")
+                r = got_list[0]
+                if isinstance(r, Failure):
+                    got = ("fail", _norm_failure(r))
                 else:
-                    sig = f"{kind}-input-result"
-                ctx.violation(sig, case,
-                              f"after {step}: later callback on input {i} saw {got!r}, model {exp!r} (consumeErrors={m.ce})")
-            if canc_real[i] != m.canc_calls[i]:
-                ctx.violation(f"{kind}-canceller-count", case,
-                              f"after {step}: canceller of input {i} ran {canc_real[i]} times, model {m.canc_calls[i]}")
+                    got = ("ok", r)
+                suffix = "" if g == "after-construction" else "-" + g
+                if exp[0] == "race-any":
+                    # race: the statement does not say what later callbacks see;
+                    # only an error that is not the input's own is a defect
+                    if got not in (("ok", None), ("ok", exp[1]), ("fail", exp[1])):
+                        ctx.violation("race-input-result-foreign", case,
+                                      f"after {step}: callback added {g} to input {i} saw {got!r}; input outcome {exp[1]!r}")
+                elif got != exp:
+                    if exp == ("ok", None) or got == ("ok", None):
+                        sig = f"{kind}-consumeErrors{suffix}"
+                    else:
+                        sig = f"{kind}-input-result{suffix}"
+                    ctx.violation(sig, case,
+                                  f"after {step}: callback added {g} to input {i} saw {got!r}, model {exp!r} (consumeErrors={m.ce})")
         for i in range(n):
             if canc_real[i] != m.canc_calls[i]:
                 ctx.violation(f"{kind}-canceller-count", case,
@@ -471,6 +497,7 @@ def run_case(ctx, case):
             effective = m.cancel_aggregate()
             if effective:
                 cancel_while_unfired = True
+            now[0] = "cancel-waiting" if m.cancelled_while_waiting else "cancel"
             agg.cancel()
             step = "cancel"
         elif op >= 100:
@@ -479,6 +506,7 @@ def run_case(ctx, case):
                 skipped += 1
                 continue
             m.inner_result(i, ("iv", i) if _chain(inputs[i])[0] else ("ix", i))
+            now[0] = "fire-inner"
             fire_inner(i)
             step = f"fire-inner({i})"
         else:
@@ -486,12 +514,28 @@ def run_case(ctx, case):
                 skipped += 1
                 continue
             m.outer_result(op, ("v", op) if inputs[op][1] else ("x", op))
+            now[0] = "fire"
             fire(op)
             step = f"fire({op})"
         steps_done.append(step)
         compare(step)
 
+    # callbacks added after everything has happened
+    now[0] = "end"
+    add_group("at-end")
+    compare("end")
+    for i in range(n):
+        ds[i].addErrback(lambda f: None)
+        if inner[i] is not None:
+            inner[i].addErrback(lambda f: None)
+
     # ---- bookkeeping
+    if reent:
+        ctx.count("re-entrant: aggregate's callback adds callbacks to the inputs")
+        if agg_fired_in and agg_fired_in[0] in ("fire-inner", "cancel-waiting"):
+            ctx.count("re-entrant add while the completing input was being resumed from its inner Deferred")
+            if m.ce and any(t is not None and not _is_ok(t) for t in m.outcome):
+                ctx.count("re-entrant add, input resumed from inner Deferred, consumeErrors with a failure")
     oks = [x[1] for x in inputs]
     mixed = any(oks) and not all(oks)
     in_order = m.order == sorted(m.order)
@@ -517,7 +561,7 @@ def run_case(ctx, case):
         ctx.count("some input still waiting at end")
     if n >= 3 and mixed and not in_order:
         ctx.count("nontrivial")
-        ctx.nontrivial((kind, case.get("foc"), case.get("foe"), case.get("ce"),
+        ctx.nontrivial((kind, case.get("foc"), case.get("foe"), case.get("ce"), bool(case.get("reent")),
                         [tuple(x) for x in inputs], list(case["sched"])))
         if len(ctx.samples) < 5 and (sum(m.order) * 7 + len(steps_done) + n) % 13 == 4:
             ctx.sample(case)
@@ -560,8 +604,9 @@ def enum_cases(n, kinds, cancellers=CANCELLERS, part=0, nparts=1):
                             cl = ["none"] * n
                             for i, c in zip(unfired, cs):
                                 cl[i] = c
-                            yield dict(k, inputs=[[pre[i], oks[i], cl[i]] for i in range(n)],
-                                       sched=sched)
+                            for reent in ((False, True) if n == 1 else (True,)):
+                                yield dict(k, inputs=[[pre[i], oks[i], cl[i]] for i in range(n)],
+                                           sched=sched, reent=reent)
 
 
 def _input_alphabet(kind, with_cancel, outer_cancellers, inner_cancellers):
@@ -607,7 +652,8 @@ def enum_chained(n, kinds, outer_cancellers=("none", "fail"), inner_cancellers=(
                         sched = list(perm)
                         if cpos is not None:
                             sched.insert(cpos, -1)
-                        yield dict(k, inputs=[list(x) for x in combo], sched=sched)
+                        for reent in ((False, True) if n == 1 else (True,)):
+                            yield dict(k, inputs=[list(x) for x in combo], sched=sched, reent=reent)
 
 
 def _enum_shard(ctx, arg):
@@ -653,7 +699,7 @@ def random_case(draw):
     ncancel = draw(st.sampled_from([0, 0, 1, 1, 1, 2]))
     for _ in range(ncancel):
         sched.insert(draw(st.integers(0, len(sched))), -1)
-    return dict(k, inputs=inputs, sched=sched)
+    return dict(k, inputs=inputs, sched=sched, reent=draw(st.booleans()))
 
 
 def run(ctx):
@@ -666,7 +712,9 @@ def run(ctx):
         # from "no canceller" only inside Deferred.cancel; the smaller sizes
         # and the random lists keep it)
         full = n <= ctx.pick(2, 3)
-        cancellers = CANCELLERS if full else ("none", "ok", "fail")
+        # (quick, n = 3: only the two cancellers that produce an indexed
+        # result -- the ones that tell inputs apart in order checks)
+        cancellers = CANCELLERS if full else (("none", "ok", "fail") if ctx.thorough else ("ok", "fail"))
         scope[str(n)] = list(cancellers)
         if n >= 3:
             # fine shards keep the 16 workers evenly busy
@@ -697,6 +745,7 @@ def run(ctx):
             if ctx.has_violation():
                 break
     ctx.extra["exhaustive_sizes"] = sizes
+    ctx.extra["exhaustive_reentrant_callbacks"] = "n = 1: with and without; n >= 2: always with (the callbacks added after construction and at the end are always there as well)"
     ctx.extra["exhaustive_canceller_alphabet_by_size"] = scope
     ctx.exhaustive = False     # the statement also covers longer lists; those are sampled
     if ctx.has_violation():
